@@ -177,7 +177,7 @@ def main(prop, tier, seed, replay_path=None):
         scen = {1: [(1, doc['hist'])]}
         mc = dict(distinct=1, generated=1, completed=True, cmd='')
     else:
-        charts = family_bdd(rng, 4 if quick else 16)
+        charts = family_bdd(rng, 4 if quick else 8)
         d = tlc.workdir('C19_bdd')
         with open(os.path.join(d, 'ChartsData.tla'), 'w') as f:
             f.write(gc.tla_charts_module('ChartsData', charts))
@@ -196,6 +196,11 @@ def main(prop, tier, seed, replay_path=None):
                     continue                      # only scenarios that end with an assertion
                 sid += 1
                 scen.setdefault(j['ci'], []).append((sid, h))
+        cap = 60000 if quick else 250000        # bound the work: a seeded sample of the enumerated scenarios
+        tot = sum(len(v) for v in scen.values())
+        if tot > cap:
+            for ci in scen:
+                scen[ci] = rng.sample(scen[ci], max(1, len(scen[ci]) * cap // tot))
         # seeded random longer scenarios (the model decides them in BddTrace.tla)
         for ci in range(1, len(charts) + 1):
             c = charts[ci - 1]
@@ -261,14 +266,18 @@ def main(prop, tier, seed, replay_path=None):
                 steps.append(dict(s, status=stt))
             traces.append({'id': sid, 'ci': ci, 'steps': steps})
             byid[sid] = (ci, h, st)
-    d2 = tlc.workdir('C19_bdd_tr')
-    with open(os.path.join(d2, 'ChartsData.tla'), 'w') as f:
-        f.write(gc.tla_charts_module('ChartsData', charts))
-    path = os.path.join(d2, 'traces.json')
-    json.dump(traces, open(path, 'w'))
-    tlc.write_mc(d2, 'BddTrace', {}, spec='TSpec', invariants=['Report'])
-    tr = tlc.run(d2, env={'TRACE_FILE': path}, timeout=3000, heap='12g')
-    reports = {j['id']: j for j in tr['json'] if isinstance(j, dict) and 'id' in j}
+    reports, tr = {}, {'error': None, 'cmd': ''}
+    for bi in range(0, len(traces), 40000):
+        d2 = tlc.workdir('C19_bdd_tr%d' % (bi // 40000))
+        with open(os.path.join(d2, 'ChartsData.tla'), 'w') as f:
+            f.write(gc.tla_charts_module('ChartsData', charts))
+        path = os.path.join(d2, 'traces.json')
+        json.dump(traces[bi:bi + 40000], open(path, 'w'))
+        tlc.write_mc(d2, 'BddTrace', {}, spec='TSpec', invariants=['Report'])
+        tr = tlc.run(d2, env={'TRACE_FILE': path}, timeout=3000, heap='8g')
+        reports.update({j['id']: j for j in tr['json'] if isinstance(j, dict) and 'id' in j})
+        if tr['error']:
+            break
     if tr['error'] or any(t['id'] not in reports for t in traces):
         print('MACHINERY-FAILURE property=C19: trace check failed or incomplete\n' + str(tr['error']))
         return 2
